@@ -567,7 +567,7 @@ pub fn run(ctx: &mut Ctx) {
         }
     });
     ctx.extra.insert("work_units".into(), json!(us.iter().map(|u| u.name.clone()).collect::<Vec<_>>().len()));
-    ctx.rule = "One evaluation = one (chip variant, operation or start flow, parameter tuple, prior-register seed) executed on lora-phy and on SWL2001 (smtc-modem-cores) with identical chip-side state, then compared: sx126x by exact MOSI byte stream per SPI transaction (written bytes + 0x00 for every byte read; for sync word / init only the state-changing transactions, reference read primed with the reset value); sx127x by executing both streams on a register-file model and comparing final registers 0x01-0x7F, FIFO writes, operating-mode sequence, under the allow-list in `allow_list`. Grids: SX1261/SX1262/STM32WL-HP/STM32WL-LP: every 100 Hz channel of 433.05-434.79/863-870/902-928 MHz + a stride over 137-1020 MHz + 1 Hz windows; all SF x BW x CR x LDRO; header x CRC x IQ x preambles {0,1,6,8,12,255,256,65535,random} x payload 0..255; 256 sync words; 65536 buffer base pairs; buffer writes 0..255 bytes; power -20..30 dBm x ramp class x frequency side of 400 MHz; IRQ masks for 10 radio modes; RX symbol timeout 0..65535 x gain; continuous / duty-cycle (24-bit periods) RX start; TX start; CAD SF5-12; image calibration bands; 15.3 RxDone workaround; init composite (DC-DC, DIO2, packet type, sync word, buffer base, retention list 0..4 entries). SX1276/SX1272: frequencies as above; SF6-12 x BW x CR x LDRO x errata-2.1 arming x band; packet params x payload writes 0..255; 256 sync words + every 16-bit word without single-byte form (refusal with zero traffic); FIFO bases; power -20..30 x RFO/PA_BOOST x ramp; idle IRQ masks; TX/RX/CAD start flows; RX symbol timeout 0..1023 and clamp above. Non-trivial (distinct by construction): parameter tuple / variant / prior state not pinned by the in-tree comparison tests. HISTORY STAGE (classes hist/*; one evaluation = one history executed on ONE lora-phy driver instance and ONE reference context, each on its own double, every step compared like a single operation: sx126x wire-canonical transactions of the step, sx127x chip-visible outcome of the step on register files that hold identical contents before every step; the first differing step is the failure and the saved case is the history up to it): steps are the operations above plus chip reset (NRESET through RadioKind::reset and an InterfaceVariant double that puts the double's registers back to their reset values - SX1276/SX1272 datasheet reset tables, FSK standby - while the reference gets a chip reset, a fresh driver context, LoRa packet type and standby), sleep warm/cold + wake-up + standby (SX126x cold start loses the register contents), init_lora; a reset or cold-start sleep is followed by the cold-start sequence lora-phy's LoRa layer always issues (wake, standby, init_lora, default TX power, idle IRQ set-up). Generated: (a) for every entry of a thinned grid (every operation kind x 1-40 parameter tuples, `pool126`/`pool127`), every prefix word of length 1..2 (quick) / 1..3 (thorough) over {same operation same parameters, same operation other parameters, chip reset, cold sleep+wake, warm sleep+wake}, all chip variants, both gain / PA / regulator configurations; (b) every ordered pair of grid entries directly after one another, with a chip reset and with a cold-start sleep in between; (c) random histories of 2..8 (quick) / 2..16 (thorough) raw steps (proptest, shrinking: repeat an earlier step exactly, repeat its kind with other parameters, reset, sleep+wake, grid entry, dense random frequency / modulation). Every history is non-trivial (no in-tree test compares a second call on a used driver), distinct histories counted by hash.".into();
+    ctx.rule = "One evaluation = one (chip variant, operation or start flow, parameter tuple, prior-register seed) executed on lora-phy and on SWL2001 (smtc-modem-cores) with identical chip-side state, then compared: sx126x by exact MOSI byte stream per SPI transaction (written bytes + 0x00 for every byte read; for sync word / init only the state-changing transactions, reference read primed with the reset value); sx127x by executing both streams on a register-file model and comparing final registers 0x01-0x7F, FIFO writes, operating-mode sequence, under the allow-list in `allow_list`. CREATOR ROUTE: the modulation- and packet-parameter objects handed to the driver are obtained through RadioKind::create_modulation_params / create_packet_params (the route every user of the LoRa layer takes; packet parameters under a spreading factor SF5..SF12 taken from the case seed, in flows under the flow's own) whenever the request is inside the legal domain of the creator (LDRO as the creator derives it; SX126x SF5/SF6 with at least 12 preamble symbols; SX127x requests the creator does not refuse); a forced LDRO setting and the refused / adjusted requests keep the literal object. Grids: SX1261/SX1262/STM32WL-HP/STM32WL-LP: every 100 Hz channel of 433.05-434.79/863-870/902-928 MHz + a stride over 137-1020 MHz + 1 Hz windows; all SF x BW x CR x LDRO; header x CRC x IQ x preambles {0,1,6,8,12,255,256,65535,random} x payload 0..255; 256 sync words; 65536 buffer base pairs; buffer writes 0..255 bytes; power -20..30 dBm x ramp class x frequency side of 400 MHz; IRQ masks for 10 radio modes; RX symbol timeout 0..65535 x gain; continuous / duty-cycle (24-bit periods) RX start; TX start; CAD SF5-12; image calibration bands; 15.3 RxDone workaround; init composite (DC-DC, DIO2, packet type, sync word, buffer base, retention list 0..4 entries). SX1276/SX1272: frequencies as above; SF6-12 x BW x CR x LDRO x errata-2.1 arming x band; packet params x payload writes 0..255; 256 sync words + every 16-bit word without single-byte form (refusal with zero traffic); FIFO bases; power -20..30 x RFO/PA_BOOST x ramp; idle IRQ masks; TX/RX/CAD start flows; RX symbol timeout 0..1023 and clamp above. Non-trivial (distinct by construction): parameter tuple / variant / prior state not pinned by the in-tree comparison tests. HISTORY STAGE (classes hist/*; one evaluation = one history executed on ONE lora-phy driver instance and ONE reference context, each on its own double, every step compared like a single operation: sx126x wire-canonical transactions of the step, sx127x chip-visible outcome of the step on register files that hold identical contents before every step; the first differing step is the failure and the saved case is the history up to it): steps are the operations above plus chip reset (NRESET through RadioKind::reset and an InterfaceVariant double that puts the double's registers back to their reset values - SX1276/SX1272 datasheet reset tables, FSK standby - while the reference gets a chip reset, a fresh driver context, LoRa packet type and standby), sleep warm/cold + wake-up + standby (SX126x cold start loses the register contents), init_lora; a reset or cold-start sleep is followed by the cold-start sequence lora-phy's LoRa layer always issues (wake, standby, init_lora, default TX power, idle IRQ set-up). Generated: (a) for every entry of a thinned grid (every operation kind x 1-40 parameter tuples, `pool126`/`pool127`), every prefix word of length 1..2 (quick) / 1..3 (thorough) over {same operation same parameters, same operation other parameters, chip reset, cold sleep+wake, warm sleep+wake}, all chip variants, both gain / PA / regulator configurations; (b) every ordered pair of grid entries directly after one another, with a chip reset and with a cold-start sleep in between; (c) random histories of 2..8 (quick) / 2..16 (thorough) raw steps (proptest, shrinking: repeat an earlier step exactly, repeat its kind with other parameters, reset, sleep+wake, grid entry, dense random frequency / modulation). Every history is non-trivial (no in-tree test compares a second call on a used driver), distinct histories counted by hash.".into();
     ctx.assumptions = vec![
         "allow-listed documented deviation: SX1276 errata 2.3 (AutomaticIFOn/RegIfFreq/RX frequency offset) is not applied by lora-phy for bandwidths below 62.5 kHz (documented in sx1276.rs); only those errata registers may differ in such cases, counted under excluded_known".into(),
         "MOSI idles at 0x00 (Semtech NOP) while the host reads: a trailing NOP write and a read byte are the same wire byte".into(),
